@@ -1268,3 +1268,32 @@ Proof.
   - rewrite A4. now rewrite E3, E2, E1.
 Qed.
 
+
+(** [run] spelled out: the empty history gives the empty manager, and a
+    history extended by one operation gives the state [step] produces *)
+Lemma run_meaning : forall (local : N) (srt : sorter),
+  run local srt [] = mgr_init /\
+  forall ops o, run local srt (ops ++ [o]) = fst (fst (step local srt (run local srt ops) o)).
+Proof. intros. split; [reflexivity|]. intros. apply run_app. Qed.
+
+Lemma route_in_meaning : forall {K D} (t : table K D) (x : entry D),
+  route_in t x <-> exists k b, In (k, b) t /\ In x b.
+Proof. intros. reflexivity. Qed.
+
+(** an AddRoute whose path contains the local agent is rejected and leaves
+    the table as it is (all four tables) *)
+Lemma self_path_rejected : forall (srt : sorter) (local now : N) (path : list N), In local path ->
+  (forall t raw nh o m s, cidr_add srt local now t raw nh o m s path = (t, false)) /\
+  (forall e w pat nh o m s, domain_add srt local now e w pat nh o m s path = (e, w, false)) /\
+  (forall t k tg nh o m s, fwd_add srt local now t k tg nh o m s path = (t, false)) /\
+  (forall t a nh o m s, agent_add srt local now t a nh o m s path = (t, false)).
+Proof.
+  intros srt local now path Hin.
+  assert (Hp : path_has local path = true).
+  { unfold path_has. apply existsb_exists. exists local. split; [assumption|apply N.eqb_refl]. }
+  split; [|split; [|split]].
+  - intros. unfold cidr_add. destruct (canon raw); [rewrite Hp|]; reflexivity.
+  - intros. unfold domain_add. destruct pat; [reflexivity|]. rewrite Hp. reflexivity.
+  - intros. unfold fwd_add. destruct k; [reflexivity|]. rewrite Hp. reflexivity.
+  - intros. unfold agent_add. rewrite Hp. reflexivity.
+Qed.
